@@ -17,4 +17,13 @@ funclit 0 in (r *RtRefreshManager) pingAndEvictPeers(ctx context.Context)
   ghost at call(Connect): $cerr = $ret0; assert($arg1.ID == ps.Id)
   ghost at call(refreshPingFnc): $perr = $ret0; assert($arg1 == ps.Id && $cerr == nil)
   ghost at call(RemovePeer): $removed = true; assert($arg0 == ps.Id)
+
+# C14: Close cancels the manager's context and waits for every goroutine it counted.
+func (r *RtRefreshManager) Close() error
+  props C14
+  ghostvar $cancelled bool = false
+  modifies *
+  ensures [waits-for-own-goroutines] tagged("wgwait:r.refcount")
+  ghost at call(cancel): $cancelled = true
+  ghost at before call(Wait): assert($cancelled)
 @*/
